@@ -160,6 +160,10 @@ func (n *refNode) Field(r node.FieldRequest, hnd *node.ValueHandle) error {
 		if want := FormatOf(sn.Type, sn.Kind == LeafList); hnd.Val.Format() != want {
 			n.st.problem("write %s: value format %s, schema wants %s", sn.Name, hnd.Val.Format(), want)
 		}
+		if old := n.d.Leaves[sn.Name]; sn.IsKey() && old != nil && !lv.List && old.V[0] != lv.V[0] {
+			// the entry was created or found under one key and is now told its key leaf holds another value
+			n.st.problem("write %s: key leaf set to %q in the entry addressed by key %q", sn.Name, lv.V[0], old.V[0])
+		}
 		n.d.Leaves[sn.Name] = lv
 		n.st.logWrite(n.d, sn.Name)
 		return nil
